@@ -61,6 +61,16 @@ TEXT = {
   "note": "Trusted: Coq kernel, extraction, driver (incl. its IP formatter), harness. Agreement of ptr_ip with the independent spec_reverse is checked per case, not proved in general. Defect F13 (case-sensitive .arpa) fixed in /repo.",
   "technique": "Coq proof over the resolve-flow model + finite exhaustive check lifted by computation + differential correspondence check",
  },
+ "C16": {
+  "text": "Proved in Coq (Properties/C16.v) on an LTS of ListenAndServe (one thread per UDP/TCP listener, main, environment choosing bind outcomes "
+          "and the stop time), for every number of listeners and every interleaving: an invariant of all reachable states; once cancelled some "
+          "step is always enabled until main has returned (no deadlock) and every step decreases a natural-number measure (every run ends); at "
+          "return no socket is open, the error is non-nil and, unless stopped from outside, it is the bind error. The pre-repair code is kept as a "
+          "mutant with a 9-step schedule that deadlocks with a bound socket (F3, fixed in /repo). Tie: the real ListenAndServe over address lists "
+          "with busy ports in every subset and cancellation at various times, judged by the extracted c16_ok spec (watchdog, re-bind, error class).",
+  "note": "Trusted: Coq kernel, extraction, driver, harness. The model's atomic steps (bind, register under the mutex, close pass, channel send/receive) are the Go primitives' documented semantics; the internal interleaving is not observed, only outcomes. proxySvc.start's 5 s wrapper is modelled only as an assumption.",
+  "technique": "Coq proof (LTS invariant, progress, decreasing measure; refuted mutant) + outcome correspondence check over bind-failure/cancellation matrix",
+ },
  "C18": {
   "text": "Proved in Coq (Properties/C18.v): for every hosts file, address->names and name->addresses lookups return exactly the associations "
           "written in the file (order and repeats kept; case-insensitive key; built-in localhost default only when undefined); for every cap and "
